@@ -396,3 +396,62 @@ def run(ctx) -> None:  # noqa: F811
     ctx.require(n >= 2, f"R-NONEDEFAULT examined only {n} methods of PolarMeasurements")
     _inner_run_c13b(ctx)
 
+
+
+# ---- added after the mutation sweep (sweepF): the range check of an upper index
+_inner_run_c13c = run
+
+
+def run(ctx) -> None:  # noqa: F811
+    import ast as _ast
+
+    from ..cfg import DataFlow as _DF
+    from ..model import norm_text as _nt, walk_no_nested as _walk
+    from ..terms import FlowNormalizer as _FN
+
+    ctx.rule("R-BOUNDCHECK", "where PolarMeasurements.integrate rejects limits by comparing a bin index with the number "
+             "of bins, the index is compared with the length of its own axis (radial index with shape[-2], azimuthal "
+             "index with shape[-1]) and only an index strictly greater than that length is rejected: an upper index "
+             "equal to the number of bins is the slice end of the outermost bin, so the last piece of a partition of "
+             "the range (and the full range itself) must be accepted")
+    f = ctx.repo.method(MOD, CLS, "integrate")
+    df = _DF(f.node)
+    flip = {_ast.Lt: _ast.Gt, _ast.Gt: _ast.Lt, _ast.LtE: _ast.GtE, _ast.GtE: _ast.LtE}
+    sym = {_ast.Lt: "<", _ast.Gt: ">", _ast.LtE: "<=", _ast.GtE: ">="}
+    n = 0
+    for st in _walk(f.node):
+        if not (isinstance(st, _ast.If) and any(isinstance(x, _ast.Raise) for x in st.body) and not st.orelse):
+            continue
+        t = st.test
+        if not (isinstance(t, _ast.Compare) and len(t.ops) == 1 and type(t.ops[0]) in flip):
+            continue
+        nz = _FN(df, df.cfg.node_of(st).idx, identity_calls={"int"})
+        sides = [nz.norm(t.left), nz.norm(t.comparators[0])]
+        shapes = {k: nz.norm(_ast.parse(f"self.shape[{k}]", mode="eval").body) for k in (-2, -1)}
+        for i in (0, 1):
+            axis = [k for k, p in shapes.items() if sides[i] == p]
+            if not axis:
+                continue
+            idx = sides[1 - i]
+            fams = {fam for fam in FAMILIES if any(fam in a for a in idx.atoms())}
+            if len(fams) != 1:
+                continue
+            fam = fams.pop()
+            own = -2 + FAMILIES.index(fam)
+            op = type(t.ops[0]) if i == 1 else flip[type(t.ops[0])]  # orientation: index OP length
+            n += 1
+            ctx.check(axis[0] == own, "R-BOUNDCHECK", f"{f.qualname}:{fam} index range:axis", f.loc(t),
+                      f"the {fam} index is checked against shape[{own}]",
+                      f"the {fam} index {idx.key()[:70]} is checked against shape[{axis[0]}], the number of bins of the "
+                      f"other axis: legal {fam} limits are rejected (or illegal ones accepted) whenever the two bin "
+                      "counts differ", key_detail="axis")
+            ctx.check(op is _ast.Gt, "R-BOUNDCHECK", f"{f.qualname}:{fam} index range:strict", f.loc(t),
+                      "rejected only if index > number of bins",
+                      f"limits are rejected when index {sym[op]} number of bins: "
+                      + ("an upper limit at the outer edge of the last bin (index == number of bins) is refused, so the "
+                         "outermost piece of a partition cannot be integrated" if op is _ast.GtE else
+                         "every limit inside the range is refused"), key_detail="strict")
+    if n == 0:
+        ctx.ok("R-BOUNDCHECK", f"{f.qualname}:no-range-check", f.where, "no index/length range check in integrate",
+               nontrivial=False)
+    _inner_run_c13c(ctx)
